@@ -19,4 +19,36 @@ PROPERTIES = {
                         "tolerances derived from eps * (|coordinates| + size) with a conditioning term size^2/area"],
         "jobs": [J("C05_kernel", quick={"cases": 12000, "shards": 16}, thorough={"cases": 600000, "shards": 16})],
     },
+    "C01": {
+        "rule": "rapidcheck stateful histories on one live cell: start mesh from 6 construction families (+ random 1-to-3 / edge-split "
+                "refinements, anisotropic scale, shear, radial bump, node noise, rigid motion, um and unit scale), then up to ~40 commands "
+                "drawn from {displace (noise / stretch / compress / bump / pinch), refresh normals, refine pass with or without swaps, "
+                "split / swap of the k-th edge, collapse of the k-th too-short edge, rebase, force-driven step}; the independent topology "
+                "oracle runs after every command. Non-trivial = history in which a split (or pass) and a swap (or pass) changed the "
+                "mesh, at least two kinds of refiner command were effective and one command hit a face created by an earlier command; "
+                "distinct = hash of start mesh + command list.",
+        "min_nontrivial": 100,
+        "assumptions": ["positive-volume clause asserted only while the enclosed volume is >= 20 l_max^3 (a cell of the order of l_min "
+                        "legitimately collapses); histories end when the cell has fewer than 10 faces or a pass throws mesh_integrity_exception",
+                        "cached normals may be one displacement old on faces a refiner command did not touch (that is how the solver calls it)"],
+        "jobs": [J("C01_remesh", quick={"cases": 500, "shards": 16, "max_size": 50},
+                   thorough={"cases": 12000, "shards": 16, "max_size": 80}),
+                 J("C01_remesh", variant="san-dm1", quick={"cases": 150, "shards": 4, "max_size": 50},
+                   thorough={"cases": 3000, "shards": 8, "max_size": 80})],
+    },
+    "C02": {
+        "rule": "rapidcheck: closed mesh (6 families, refinements, deformations, rigid placement up to 1000 sizes from the origin, um and "
+                "unit scale, permuted numbering), 1-4 face types with independent zero/non-zero tension and bending modulus, random "
+                "per-face labels, bulk / area-elasticity / angle-regularisation moduli over decades, target volume != volume. Each "
+                "force term is isolated through the cell_tester friend and judged against closed-form gradients (volume gradient "
+                "cross-checked by finite differences). Non-trivial = >= 2 face types present, pressure != 0, some bending modulus != 0 "
+                "and the cell farther than one size from the origin; distinct = hash of the serialised case.",
+        "min_nontrivial": 200,
+        "assumptions": ["tolerances: 256 eps (1 + D/e_min) Q times the sum of absolute per-face contributions (Q = worst L^2/2A); cases "
+                        "with that factor above 1e-5 are skipped as ill-conditioned (counted)",
+                        "bending and angle regularisation are held to momentum/torque balance and covariance only (the statement claims "
+                        "an energy derivation for pressure and tension only)"],
+        "jobs": [J("C02_forces", quick={"cases": 1200, "shards": 16, "max_size": 60},
+                   thorough={"cases": 25000, "shards": 16, "max_size": 100})],
+    },
 }
